@@ -426,6 +426,8 @@ def runDec (f : Nat → CqlTy → Option Bytes → GoTy → String) (ws : List S
       `u <slot> <s|g> p T hex GT`   Unmarshal into a new target of that Go type and KEEP the decoded value
       `y <s|g> p T hex GT`          Unmarshal, result dropped
       `c <slot>`                    what the holder reads now (bytes / the decoded value)
+      `i <slot>`                    is the caller's memory (every byte slice of the Go value / the data buffer) still what
+                                    it passed?
       `m <slot> <xx>`               the caller re-uses its input AFTER the call: every byte of every byte slice of the
                                     Go value (Marshal) / of the data buffer (Unmarshal) `^= xx`
       `d <slot>`                    drop
@@ -508,6 +510,11 @@ def heldStep (s : HSt) (ws : List String) : HSt × String :=
       | none => (s, "bad-step"))
   | ["c", slot] => (match slot.toNat? with
       | some k => (s, s!"s{k}={showHeld s k}")
+      | none => (s, "bad-step"))
+  | ["i", slot] => (match slot.toNat? with
+      | some k => (match s.lookup k, s.input k with
+          | some sl, some bs => (s, s!"in{k}={if bs == MarshalHeap.callSig.ins sl.arg then "same" else "changed"}")
+          | _, _ => (s, s!"in{k}=none"))
       | none => (s, "bad-step"))
   | ["m", slot, xx] => (match slot.toNat?, parseHexByte1 xx with
       | some k, some x => (MarshalHeap.step .fresh MarshalHeap.callSig s (.mutIn k x), "ok")
